@@ -534,7 +534,11 @@ def run_batch(prop, tier, master, nruns, workers, wall_cap_s, selftest_n):
             'fault_kinds_not_injected': COMPONENTS['absent_in_beanquery_not_simulated'],
             'probes': probes,
             'other_counters': {k: v for k, v in stats.items()
-                               if not k.startswith(('probes.', 'faults_fired.')) and k not in ('steps', 'ops', 'switches')},
+                               if not k.startswith(('probes.', 'faults_fired.', 'pairs.')) and k not in ('steps', 'ops', 'switches')},
+            'distinct_switch_site_pairs': sum(1 for k in stats if k.startswith('pairs.')),
+            'switch_site_pairs_most_frequent': dict(sorted(((k[6:], v) for k, v in stats.items() if k.startswith('pairs.')),
+                                                           key=lambda kv: -kv[1])[:12]),
+            'seeds_per_hour': int(agg['runs'] / max(wall, 1e-6) * 3600),
             'components': COMPONENTS,
             'determinism_selftest': st,
             'violations_reported': reports,
